@@ -51,17 +51,147 @@ class AsmAddr:
     max_paths = 200
 
     def cells(self, tier):
-        return [{"id": "fn/translate_statements/address-pass", "k": "addr"}]
+        return [{"id": "fn/translate_statements/address-pass", "k": "addr"}, {"id": "fn/translate_statements/origin-and-name", "k": "origin"}]
 
     def probes(self, cell):
+        if cell["k"] == "origin":
+            for prog in (["O3000", "N"], ["MHELLO", "O0E00", "N", "N"], ["N", "N"], ["O8000", "MX", "R5", "N"], ["E", "O1000", "N", "MLATE"], ["O0000", "N"]):
+                yield {"prog": prog}
+            return
         for prog in (["N", "N", "O3000", "N", "R5", "N"], ["O0E00", "R300", "N", "N"], ["N"], ["R0", "R0", "N"], ["O1000", "N", "O2000", "N", "N"],
                      ["OFFF0", "R10", "N"], ["E", "N", "E", "R2", "N"]):
             yield {"prog": prog}
 
     def run(self, env, cell):
         if env.mode == "native":
-            return self.native(env, cell)
-        self.s_addr(env, cell)
+            return self.native(env, cell) if cell["k"] == "addr" else self.native_origin(env, cell)
+        getattr(self, "s_" + cell["k"])(env, cell)
+
+    def native_origin(self, env, cell):
+        prog = env.holes.get("prog")
+        if not prog:
+            raise sym.PathAbort()
+        lines, org, nam = [], None, None
+        for t in prog:
+            if t[0] == "O":
+                lines.append(" ORG $%s\n" % t[1:])
+                org = int(t[1:], 16)
+            elif t[0] == "M":
+                lines.append(" NAM %s\n" % t[1:])
+                nam = t[1:]
+            elif t[0] == "R":
+                lines.append(" RMB %s\n" % t[1:])
+            elif t[0] == "E":
+                lines.append("V%d EQU 5\n" % len(lines))
+            else:
+                lines.append(" NOP\n")
+        if sum(1 for t in prog if t[0] == "O") > 1 or (org is not None and prog[0][0] not in "OME"):
+            raise sym.PathAbort()           # second ORG / code before ORG: other (known) findings
+        run = assemble(env, lines)
+        if run.status != "ok":
+            raise sym.PathAbort()
+        env.ensure(KEY + "translate_statements::post:origin-is-org-address", run.origin == org, ("C02", "C11"),
+                   lambda: "origin:%s" % ",".join(t[0] for t in prog))
+        env.ensure(KEY + "translate_statements::post:name-is-nam-operand", (run.name or None) == nam, ("C11",),
+                   lambda: "name:%s" % ",".join(t[0] for t in prog))
+
+    def s_origin(self, env, cell):
+        """the last loop of translate_statements over an abstract statement list: origin = address of the last ORG statement seen,
+        name = operand text of the last NAM statement seen (ghost: index of the last ORG / NAM before i)"""
+        it = env.interp
+        p = cur()
+        Statement = it.get("cocoasm.statement", "Statement")
+        CodePackage = it.get("cocoasm.instruction", "CodePackage")
+        Instruction = it.get("cocoasm.instruction", "Instruction")
+        Operand = it.get("cocoasm.operands", "Operand")
+        NumericValue = it.get("cocoasm.values", "NumericValue")
+        n = env.hole_int("n", 1, 100000)
+        ADDR = z3.Array("h_addrarr", z3.IntSort(), z3.IntSort())
+        ISORG = z3.Array("h_isorg", z3.IntSort(), z3.BoolSort())
+        ISNAM = z3.Array("h_isnam", z3.IntSort(), z3.BoolSort())
+        LO = z3.Array("lastorg", z3.IntSort(), z3.IntSort())
+        LN = z3.Array("lastnam", z3.IntSort(), z3.IntSort())
+        key = KEY + "translate_statements"
+
+        def gdef(k):
+            return And(sel(LO, k + 1) == Ite(selb(ISORG, k), k, sel(LO, k)), sel(LN, k + 1) == Ite(selb(ISNAM, k), k, sel(LN, k)))
+
+        def elem(k):
+            o = Obj(Statement, {"code_pkg": Obj(CodePackage, {"address": Obj(NumericValue, {"int": sel(ADDR, k), "type": None}), "size": 0}),
+                                "instruction": Obj(Instruction, {"is_origin": selb(ISORG, k), "is_name": selb(ISNAM, k)}),
+                                "operand": Obj(Operand, {"operand_string": ("name-of", k)})})
+            return o
+        prog = it.call(it.get("cocoasm.program", "Program"), [], {})
+        it.setattr_(prog, "statements", AbsList(n, elem))
+        v = Verifier(env, it)
+        st = {}
+
+        def view():
+            """(origin value or None when still unset, index tag of the name or None)"""
+            o = it.getattr_(prog, "origin")
+            ov = it.getattr_(o, "int") if (isinstance(o, Obj) and "int" in o.fields and o.cls.name != "NoneValue") else None
+            nm = it.getattr_(prog, "name")
+            return ov, (nm[1] if isinstance(nm, tuple) else None)
+
+        def init(ctx):
+            return {}
+
+        def havoc(ctx):
+            p.fresh += 1
+            i_lo = SymInt(z3.Int("lo!%d" % p.fresh))
+            i_ln = SymInt(z3.Int("ln!%d" % p.fresh))
+            st["lo"], st["ln"] = i_lo, i_ln
+            # the program's origin / name after some iterations: unset, or those of an earlier ORG / NAM statement
+            if branch(i_lo >= 0):
+                it.setattr_(prog, "origin", Obj(NumericValue, {"int": sel(ADDR, i_lo), "type": None}))
+            if branch(i_ln >= 0):
+                it.setattr_(prog, "name", ("name-of", i_ln))
+            return {}
+
+        def inv(ctx, i, g):
+            ov, nk = view()
+            lo = sel(LO, i)
+            ln = sel(LN, i)
+            c1 = (And(lo >= 0, ov == sel(ADDR, lo)) if ov is not None else (lo < 0))
+            c2 = (And(ln >= 0, nk == ln) if nk is not None else (ln < 0))
+            extra = []
+            if "lo" in st:
+                extra = [("ghost", And(st["lo"] == lo, st["ln"] == ln))] if not st.get("checked") else []
+            return [("origin", c1), ("name", c2)]
+
+        def assume(ctx, i):
+            return [gdef(i), sel(LO, 0) == -1, sel(LN, 0) == -1, st["lo"] == sel(LO, i), st["ln"] == sel(LN, i)]
+
+        def step(ctx, i, g):
+            return {}
+
+        def reached(ctx):
+            raise _Reached()
+        # loops in source order: 0 save_symbol, 1 resolve, 2 translate, 3 while, 4 its for, 5 address pass, 6 fix_addresses,
+        # 7 symbol back-patch (empty table here), 8 origin / name
+        triv = lambda: LoopSpec(("C02",), lambda ctx: {}, lambda ctx: {}, lambda ctx, i, g: [], lambda ctx, i, g: {})
+        for o in (0, 1, 2, 5, 6):
+            v.loop(key, o, triv())
+        v.loop(key, 8, LoopSpec(("C02", "C11"), init, havoc, inv, step, assume=assume))
+        v.contract(KEY + "process_mnemonics", CallSpec(lambda v_, interp, func, args: args["statements"]))
+        v.contract(KEY + "save_symbol", CallSpec(lambda v_, interp, func, args: None))
+        v.contract(KEY + "all_sizes_fixed", CallSpec(lambda v_, interp, func, args: True))
+        for fn in ("resolve_symbols", "translate", "fix_addresses"):
+            v.contract("cocoasm/statement.py::Statement." + fn, CallSpec(lambda v_, interp, func, args: None))
+        v.contract("cocoasm/statement.py::Statement.set_address", CallSpec(lambda v_, interp, func, args: args["address"]))
+        p.assume(And(sel(LO, 0) == -1, sel(LN, 0) == -1))
+        st["lo"], st["ln"] = -1, -1
+        with v.installed():
+            try:
+                it.call(it.getattr_(prog, "translate_statements"), [], {})
+            except PyRaise as pr:
+                env.fail(key + "::raises:none-in-origin-loop", ("C02", "C13"), internal=INTERNAL)
+                return
+        ov, nk = view()
+        lo, ln = sel(LO, n), sel(LN, n)
+        env.ensure(key + "::post:origin-is-last-org-address", (And(lo >= 0, ov == sel(ADDR, lo)) if ov is not None else (lo < 0)), ("C02", "C11"),
+                   internal=INTERNAL)
+        env.ensure(key + "::post:name-is-last-nam-operand", (And(ln >= 0, nk == ln) if nk is not None else (ln < 0)), ("C11",), internal=INTERNAL)
 
     def native(self, env, cell):
         prog = env.holes.get("prog")
